@@ -13,6 +13,25 @@ func Main(cmd string, args []string) int {
 	switch cmd {
 	case "probe":
 		return probe(args)
+	case "httpprobe":
+		it := harness.NewInterp()
+		h, err := newHTTPHandler(it)
+		if err != nil {
+			fmt.Println("ERR", err)
+			return 2
+		}
+		for _, a := range args {
+			m, tgt, body := "GET", a, ""
+			if strings.HasPrefix(a, "POST ") {
+				parts := strings.SplitN(a, " ", 3)
+				m, tgt = "POST", parts[1]
+				if len(parts) > 2 {
+					body = parts[2]
+				}
+			}
+			fmt.Println(a, "=>", serveOnce(h, httpReq{Method: m, Target: tgt, Body: body}))
+		}
+		return 0
 	case "work":
 		return work(args)
 	case "drive":
